@@ -1,5 +1,6 @@
 import Gv.Model.Fmt.Phylip
 import Gv.Proofs.PhylipOutcome
+import Gv.Proofs.Utf8Norm
 /-!
 Phylip parser: the fuel of every loop of the model is sufficient — the parser never reports `hang`
 (helper development for `Props/C03.lean`).
@@ -313,21 +314,22 @@ theorem seqLine_nh' (tok : Tok) (s : St) (acc : Seq) : seqLine (s.inp.length + 3
 
 @[grind →] theorem readName10_strict (s : St) (v : Seq × St) (h : readName10 s = .ok v) : ν v.2 < ν s := by
   unfold readName10 at h
+  have hlen := Gv.Proofs.Utf8Norm.takeRunes_length 10 s.inp
+  simp only at h
   split at h
   · simp at h
   · rename_i hl
-    simp only at h
     split at h
     · simp at h
     · simp only [pure, Except.pure, Except.ok.injEq] at h
       subst h
-      simp only [ν, List.length_drop]
-      have : 10 ≤ s.inp.length := by omega
+      simp only [ν]
       split <;> omega
 
 theorem readName10_nh (s : St) : readName10 s ≠ .error .hang := by
   intro h
   unfold readName10 at h
+  simp only at h
   repeat' (split at h <;> try (simp [pure, Except.pure] at h))
 
 theorem firstBlock_c (strict : Bool) : ∀ (fuel n : Nat) (s : St) (acc : List XRow), ν s < fuel →
